@@ -110,6 +110,40 @@ pub fn drop_full_queue(a: &Value) -> Value {
         let c = Arc::new(c);
         let mut sub: Option<Subscription<String>> = None;
         let mut handler: Option<Subscription<String>> = None;
+        if kind == "lagging" {
+            // the consumer does not read; the lag is detected while the request queue is full: the client must still close the subscription on the server
+            let (c, mut s, gate) = gated_client(ClientBuilder::default().max_concurrent_requests(1).max_buffer_capacity_per_subscription(1).request_timeout(std::time::Duration::from_secs(5)));
+            let c = Arc::new(c);
+            let held = subscribe(&c, &mut s, "A").await;
+            let stall = gate.write().await;
+            let (c1, c2) = (c.clone(), c.clone());
+            let h1 = tokio::spawn(async move { c1.request::<Value, _>("x", rpc_params![]).await });
+            tokio::time::sleep(std::time::Duration::from_millis(100)).await;
+            let h2 = tokio::spawn(async move { c2.request::<Value, _>("y", rpc_params![]).await });
+            tokio::time::sleep(std::time::Duration::from_millis(100)).await;
+            for k in 0..3 {
+                s.push(json!({"jsonrpc":"2.0","method":"sub","params":{"subscription":"A","result":format!("n{k}")}}));
+            }
+            tokio::time::sleep(std::time::Duration::from_millis(200)).await;
+            drop(stall);
+            let mut unsubs = 0;
+            for _ in 0..2 {
+                if let Some(rq) = s.next_request().await {
+                    if rq["method"] == "unsub" { unsubs += 1; }
+                    s.push(json!({"jsonrpc":"2.0","id":rq["id"],"result":1}));
+                }
+            }
+            let _ = h1.await;
+            let _ = h2.await;
+            while let Some(rq) = s.try_next_request(500).await {
+                if rq["method"] == "unsub" { unsubs += 1; }
+                s.push(json!({"jsonrpc":"2.0","id":rq["id"],"result":true}));
+            }
+            let lagged = matches!(held.close_reason(), Some(jsonrpsee_core::client::SubscriptionCloseReason::Lagged));
+            let violation = unsubs != 1 || !lagged;
+            return json!({"scenario":"c05_drop_full_queue","observed":{"kind":"lagging","unsubscribe_requests":unsubs,"reported_lagged":lagged},"violation":violation,
+                          "why": if violation {"a subscription that lagged while the request queue was full was not closed on the server by exactly one unsubscribe"} else {""}});
+        }
         if kind == "subscription" || kind == "explicit" {
             sub = Some(subscribe(&c, &mut s, "A").await);
         } else {
